@@ -4,6 +4,8 @@
 
 #include "common.h"
 
+bool jx_ignore_accounted_heap;
+
 const char *variant_name(void)
 {
 	return SIM_VARIANT;
@@ -183,7 +185,7 @@ int jx_check_idle_baseline(const char *keyprefix)
 		xp_finding(key, "after all connections are gone %d descriptor(s) are open (idle baseline %d; open kinds: %s)", sim_open_fds(), sim_base.open_fds, kinds);
 		n++;
 	}
-	if (cjet_get_alloc_size() != sim_base.alloc_size) {
+	if (cjet_get_alloc_size() != sim_base.alloc_size && !jx_ignore_accounted_heap) {
 		snprintf(key, sizeof(key), "%saccounted-heap-not-back-at-baseline", keyprefix);
 		xp_finding(key, "after all connections are gone the accounted heap is %zu bytes (idle baseline %zu)", cjet_get_alloc_size(), sim_base.alloc_size);
 		n++;
